@@ -113,10 +113,22 @@ def r2_constructor(R) -> None:
         raise Unsupported(f'{q}: the stored alias map `{text(A_expr)[:40]}` is not a local name')
     AM = A_expr.id
 
+    # the map may pass through several locals on its way (a helper read in place works on its own parameter and hands the
+    # result back): every local whose definitions are such steps on another tracked local belongs to the family
+    family = {AM}
+
     def parse(e: ast.AST):
-        """('A') | ('init') | ('filter', inner) | ('subst', inner) | None"""
-        if isinstance(e, ast.Name) and e.id == AM:
-            return ('A',)
+        """('A', name) | ('init') | ('filter', inner) | ('subst', inner) | None"""
+        if isinstance(e, ast.Name) and e.id in family:
+            return ('A', e.id)
+        if isinstance(e, ast.Name) and e.id in f.lf.locals and e.id not in f.fi.params():
+            # a candidate member: accepted if all its definitions parse
+            family.add(e.id)
+            ok_ = all(parse(f.expand(d_.node.id, d_.value, stop=tuple(family), comps=True)) is not None for d_ in f.vdefs(e.id))
+            if ok_ and f.vdefs(e.id):
+                return ('A', e.id)
+            family.discard(e.id)
+            return None
         if is_call(e, 'copy.deepcopy', 'copy.copy', 'dict') and len(e.args) == 1 and text(e.args[0]) in ('self.ALIASES', 'type(self).ALIASES', 'self.__class__.ALIASES'):
             return ('init',)
         if text(e) in ('self.ALIASES', 'type(self).ALIASES', 'self.__class__.ALIASES'):
@@ -137,44 +149,67 @@ def r2_constructor(R) -> None:
         return None
 
     def has(op, kind):
-        while op is not None and len(op) > 1:
+        while op is not None and len(op) > 1 and op[0] != 'A':
             if op[0] == kind:
                 return True
             op = op[1]
         return False
 
-    defs = {}
-    for d in f.vdefs(AM):
-        x = f.expand(d.node.id, d.value, stop=(AM,), comps=True)
-        op = parse(x)
-        if op is None:
-            raise Unsupported(f'{q}: `{AM} = {text(x)[:80]}` is not a copy, a self-map filter or a substitution step of the alias map')
-        defs[d.node.id] = op
+    def root(op):
+        while op is not None and op[0] in ('filter', 'subst'):
+            op = op[1]
+        return op
+
+    defs = {}      # node id -> (name defined, op)
+    done = set()
+    todo = [AM]
+    while todo:
+        nm_ = todo.pop()
+        if nm_ in done:
+            continue
+        done.add(nm_)
+        for d in f.vdefs(nm_):
+            x = f.expand(d.node.id, d.value, stop=tuple(family), comps=True)
+            op = parse(x)
+            if op is None:
+                raise Unsupported(f'{q}: `{nm_} = {text(x)[:80]}` is not a copy, a self-map filter or a substitution step of the alias map')
+            defs[d.node.id] = (nm_, op)
+            r_ = root(op)
+            if r_ is not None and r_[0] == 'A' and r_[1] not in done:
+                todo.append(r_[1])
     # forward may-analysis: set of possible states of AM at node entry
     FREE, NOT, UNDEF_ = 'free', 'not-free', 'undef'
-    state_in = {n.id: set() for n in f.cfg.nodes}
-    state_in[f.cfg.entry] = {UNDEF_}
+    names_ = sorted(done)
+    st_in = {n.id: {nm_: set() for nm_ in names_} for n in f.cfg.nodes}
+    for nm_ in names_:
+        st_in[f.cfg.entry][nm_] = {UNDEF_}
     work = [f.cfg.entry]
     while work:
         nid = work.pop()
-        cur = state_in[nid]
+        cur = st_in[nid]
+        out = {nm_: set(v_) for nm_, v_ in cur.items()}
         if nid in defs:
-            op = defs[nid]
+            nm_, op = defs[nid]
             if op[0] == 'filter':
-                out = {FREE}
+                out[nm_] = {FREE}
             elif op[0] == 'A':
-                out = set(cur)
+                out[nm_] = set(cur[op[1]])
             else:
-                out = {NOT}
-        else:
-            out = set(cur)
+                out[nm_] = {NOT}
         for (b_, lab) in f.cfg.nodes[nid].succ:
-            if not out <= state_in[b_]:
-                state_in[b_] |= out
+            changed = False
+            for nm_ in names_:
+                if not out[nm_] <= st_in[b_][nm_]:
+                    st_in[b_][nm_] |= out[nm_]
+                    changed = True
+            if changed:
                 work.append(b_)
-    inter_forms = {f'set({AM}.keys()) & set({AM}.values())', f'set({AM}.values()) & set({AM}.keys())', f'set({AM}) & set({AM}.values())', f'set({AM}.values()) & set({AM})',
-                   f'{AM}.keys() & set({AM}.values())', f'{AM}.keys() & {AM}.values()'}
+    state_in = {nid: v_[AM] for nid, v_ in st_in.items()}
+    def inter_forms_of(N):
+        return {f'set({N}.keys()) & set({N}.values())', f'set({N}.values()) & set({N}.keys())', f'set({N}) & set({N}.values())', f'set({N}.values()) & set({N})',
+                f'{N}.keys() & set({N}.values())', f'{N}.keys() & {N}.values()'}
     term_tests = []
+    tested_name = {}
     for t in f.cfg.nodes:
         if t.kind not in ('test', 'while') or not t.loops and t.kind != 'while':
             continue
@@ -182,8 +217,10 @@ def r2_constructor(R) -> None:
         pos = True
         if isinstance(te, ast.UnaryOp) and isinstance(te.op, ast.Not):
             te, pos = te.operand, False
-        if text(te) in inter_forms:
-            term_tests.append((t, pos))
+        for N in names_:
+            if text(te) in inter_forms_of(N):
+                term_tests.append((t, pos))
+                tested_name[t.id] = N
     if not term_tests:
         raise Unsupported(f'{q}: no test of `set(keys) & set(values)` controls the shortening loop')
     # every way out of the shortening loop is the "disjoint" outcome of the termination test
@@ -218,17 +255,18 @@ def r2_constructor(R) -> None:
                 leaves = (t.kind == 'while' and loop_id not in tgt.loops and b_ != t.id) or (isinstance(tgt.ast, ast.Break))
         R.check(leaves, q, 'shortening-terminates-when-disjoint', 'the shortening loop ends exactly when no name is both alias and target',
                 f'`{t.label()[:70]}`: the loop does not leave when keys and values are disjoint', where=f.where(t))
-        ok_free = state_in[t.id] <= {FREE} and bool(state_in[t.id])
+        sv_ = st_in[t.id][tested_name[t.id]]
+        ok_free = sv_ <= {FREE} and bool(sv_)
         R.check(ok_free, q, 'selfmaps-before-termination-test', 'self-maps are dropped before every evaluation of the termination test (the loop terminates on self-maps)',
                 'the shortening loop tests `keys & values` without first dropping self-maps: an alias that points to itself (ALIASES = {"Y": "Y", ...}) keeps the loop running forever',
                 where=f.where(t))
     loop_ids = {t.id if t.kind == 'while' else t.loops[-1] for (t, _p) in term_tests}
-    subst_in_loop = [nid for nid, op in defs.items() if (has(op, 'subst') or op[0] == 'subst') and any(l in f.cfg.nodes[nid].loops for l in loop_ids)]
+    subst_in_loop = [nid for nid, (_nm, op) in defs.items() if (has(op, 'subst') or op[0] == 'subst') and any(l in f.cfg.nodes[nid].loops for l in loop_ids)]
     R.check(bool(subst_in_loop), q, 'chain-shortening', 'chains are shortened by substituting values through the map until no value is a key',
             'chain shortening is not `aliases = {k: aliases.get(v, v) ...}` until keys and values are disjoint', where=f.fi.where)
     R.check(state_in[st[0].id] <= {FREE} and bool(state_in[st[0].id]), q, 'drop-self-maps', 'the stored map holds no self-map',
             f'self-maps are not dropped before the map is stored (possible states: {sorted(state_in[st[0].id])})', where=f.where(st[0]))
-    R.check(any(op == ('init',) or has(op, 'init') or (len(op) > 1 and op[-1] == ('init',)) or 'init' in repr(op) for op in defs.values()), q, 'aliases-from-class',
+    R.check(any('init' in repr(op) for (_nm, op) in defs.values()), q, 'aliases-from-class',
             'the instance map starts as a copy of the class-level ALIASES', 'the alias map is not initialised from a copy of ALIASES', where=f.fi.where)
     # ambiguous preferences: a target already referenced by an earlier preferred name raises ValueError
     rs = f.raises('ValueError')
